@@ -155,7 +155,12 @@ def render_struct(gen, name, ty):
 
 
 def render_enum(gen, name, ty):
-    src = ["#[derive(desert_macro::BinaryCodec)]"]
+    # every other enum with a unit constructor also derives Default and marks that constructor `#[default]`: a foreign
+    # attribute that must not change anything about the codec
+    h = int(hashlib.sha1(key(ty).encode()).hexdigest()[4:8], 16)
+    units = [i for i, v in enumerate(ty["variants"]) if v["shape"] == "unit" and not v["tr"]]
+    default_at = units[h % len(units)] if units and h % 2 == 0 else None
+    src = ["#[derive(desert_macro::BinaryCodec, Default)]" if default_at is not None else "#[derive(desert_macro::BinaryCodec)]"]
     if ty["sorted"]:
         src.append("#[sorted_constructors]")
     src.append("pub enum %s {" % name)
@@ -167,6 +172,8 @@ def render_enum(gen, name, ty):
     for i, var in enumerate(ty["variants"]):
         vn = name_str(var["n"])
         attrs = []
+        if i == default_at:
+            attrs.append("#[default]")
         if var["tr"]:
             attrs.append("#[transient]")
         ev = evolution_attr(gen, var["fields"], var["steps"])
